@@ -82,7 +82,7 @@ def envelope_soups(rng, exhaustive_len, n_random):
     return out
 
 
-def reading(text, loops=(None, '2000A', 'ST_LOOP')):
+def reading(text, loops=(None, '2000A', 'ST_LOOP', 'DETAIL', '2300', 'GS_LOOP', 'TABLE2AREA3')):
     """plain reading and context-reader iteration: -> [exception names that escaped]"""
     import pyx12.error_handler
     import pyx12.params
@@ -140,12 +140,14 @@ def run(ctx, report):
         report.case(('soup-read', text))
         for (which, name, msg) in reading(text, loops=(None,)):
             report.count('reading-raises')
-            report.fail('C07:%s-escapes:%s' % (which.split(':')[0], name), '%s raised %s: %s' % (which, name, msg), {'text': text[:3000], 'what': what})
+            report.fail('C07:%s-escapes:%s%s' % (which.split(':')[0], name, (':' + which.split(':')[1]) if ':' in which else ''),
+                        '%s raised %s: %s' % (which, name, msg), {'text': text[:3000], 'what': what})
     # reading and context iteration
     for (kind, what, text) in cases[:(400 if thorough else 90)]:
         for (which, name, msg) in reading(text):
             report.count('reading-raises')
-            report.fail('C07:%s-escapes:%s' % (which.split(':')[0], name), '%s raised %s: %s' % (which, name, msg), {'text': text[:3000], 'what': what})
+            report.fail('C07:%s-escapes:%s%s' % (which.split(':')[0], name, (':' + which.split(':')[1]) if ':' in which else ''),
+                        '%s raised %s: %s' % (which, name, msg), {'text': text[:3000], 'what': what})
     logging.disable(logging.NOTSET)
 
 
